@@ -17,7 +17,9 @@ Inductive prog :=
 | PStmt (s : stmt) (rest : prog)
 | PIf (c : expr) (body : prog) (rest : prog)
 | PIfE (c : expr) (body ebody : prog) (rest : prog)
-| PWhile (c : expr) (body : prog) (rest : prog).
+| PWhile (c : expr) (body : prog) (rest : prog)
+(* exit repeat: a forward jump; [off] is its operand (relative to the jump's own address), see exits_ok *)
+| PExit (off : Z) (rest : prog).
 
 Fixpoint compile_p (p : prog) : bytes :=
   match p with
@@ -29,6 +31,7 @@ Fixpoint compile_p (p : prog) : bytes :=
   | PWhile c a r =>
     (* the loop: condition, jump past the back jump, body, one-byte back jump to the start of the condition *)
     compile_e c ++ jz (3 + zlen (compile_p a) + 2) ++ compile_p a ++ [b 84; b (zlen (compile_e c) + 3 + zlen (compile_p a))] ++ compile_p r
+  | PExit off r => jmp off ++ compile_p r
   end.
 Fixpoint ninstr_p (p : prog) : nat :=
   match p with
@@ -37,6 +40,7 @@ Fixpoint ninstr_p (p : prog) : nat :=
   | PIf c a r => (ninstr c + (1 + (ninstr_p a + ninstr_p r)))%nat
   | PIfE c a eb r => (ninstr c + (1 + (ninstr_p a + (1 + (ninstr_p eb + ninstr_p r)))))%nat
   | PWhile c a r => (ninstr c + (1 + (ninstr_p a + (1 + ninstr_p r))))%nat
+  | PExit off r => S (ninstr_p r)
   end.
 
 (* [wc]: what is asked of a while condition (LingoNestFacts.wcond_ok for plain while loops) *)
@@ -49,6 +53,30 @@ Fixpoint wf_p (wc : node -> bool) (en : env) (p : prog) : Prop :=
                      wf_p wc en a /\ wf_p wc en eb /\ wf_p wc en r
   | PWhile c a r => wf_e en c /\ (forall pc, wc (reify_e en pc c) = true) /\ zlen (compile_e c) + 3 + zlen (compile_p a) < 256 /\
                     wf_p wc en a /\ wf_p wc en r
+  | PExit off r => 0 <= off < 65536 /\ wf_p wc en r
+  end.
+
+(* exit repeat jumps to the address after the back jump of the loop it stands in.  [k]: the number of bytes between the
+   end of this (sub)program and that address - None outside any loop, where exit repeat cannot stand *)
+Definition oplus (k : option Z) (n : Z) : option Z := match k with Some z => Some (z + n) | None => None end.
+Fixpoint exits_ok (k : option Z) (p : prog) : Prop :=
+  match p with
+  | PNil => True
+  | PStmt s r => exits_ok k r
+  | PIf c a r => exits_ok (oplus k (zlen (compile_p r))) a /\ exits_ok k r
+  | PIfE c a eb r => exits_ok (oplus k (3 + zlen (compile_p eb) + zlen (compile_p r))) a /\ exits_ok (oplus k (zlen (compile_p r))) eb /\ exits_ok k r
+  | PWhile c a r => exits_ok (Some 2) a /\ exits_ok k r
+  | PExit off r => (exists k0, k = Some k0 /\ off = 3 + zlen (compile_p r) + k0) /\ exits_ok k r
+  end.
+(* programs without exit repeat *)
+Fixpoint exit_free (p : prog) : Prop :=
+  match p with
+  | PNil => True
+  | PStmt s r => exit_free r
+  | PIf c a r => exit_free a /\ exit_free r
+  | PIfE c a eb r => exit_free a /\ exit_free eb /\ exit_free r
+  | PWhile c a r => exit_free a /\ exit_free r
+  | PExit _ _ => False
   end.
 
 (* the statements the stack machine leaves, as positioned items, when the code of p starts at pc *)
@@ -69,6 +97,7 @@ Fixpoint items (en : env) (props : list string) (pc : Z) (p : prog) : list item 
     let pj := pc + zlen (compile_e c) in
     let pe := pj + 3 + zlen (compile_p a) in
     IWhile false pc pj (reify_e en pc c) pe (items en props (pj + 3) a) :: items en props (pe + 2) r
+  | PExit off r => IExit false pc (pc + off) :: items en props (pc + 3) r
   end.
 
 (* the decompiled program: what the emitted text is printed from *)
